@@ -85,6 +85,10 @@ FnVars(i) == {Params(i)[q] : q \in 1..Len(Params(i))}
 FnAdd(e) == /\ phase = "fn" /\ Len(cur) < MaxFnLines /\ (IF e.k = "l" THEN e.e.k # "v" ELSE TRUE)
             /\ cur' = Append(cur, Line(1, "assign", "tl", e, ""))
             /\ UNCHANGED <<phase, lines, open, must, lastif, fns, nloop, stop>>
+\* a parameter is a local variable: the body may change it (the caller's argument keeps its value)
+FnAug(p, op, x) == /\ phase = "fn" /\ Len(cur) < MaxFnLines
+                   /\ cur' = Append(cur, Line(1, "aug", p, op, x))
+                   /\ UNCHANGED <<phase, lines, open, must, lastif, fns, nloop, stop>>
 FnWrite(e) == /\ phase = "fn" /\ ~Pure /\ Len(cur) < MaxFnLines
               /\ cur' = Append(cur, Line(1, "write", "d5", e, ""))
               /\ UNCHANGED <<phase, lines, open, must, lastif, fns, nloop, stop>>
@@ -99,6 +103,7 @@ FnStep == LET i == Len(fns) + 1
               names == FnVars(i) \cup (IF \E q \in 1..Len(cur) : cur[q].kind = "assign" THEN {"tl"} ELSE {}) IN
           \/ \E e \in ExprsF(names) : FnAdd(e) \/ FnWrite(e) \/ FnReturn(e)
           \/ \E c \in Pick(Conds(FnVars(i))), e \in ExprsF(FnVars(i)) : FnEarly(c, e)
+          \/ \E p \in Pick(FnVars(i)), op \in Pick(Ops), x \in Pick(IF Pure THEN PureLeaves(FnVars(i)) ELSE Leaves(FnVars(i))) : FnAug(p, op, x)
 
 \* ---- the main part ---------------------------------------------------------------------------------------
 Room == Len(lines) < MaxLines /\ ~stop
